@@ -516,6 +516,15 @@ pub fn gen_role_machine_rp(r: &mut SplitMix64, role: Role, bypass: Option<bool>,
     for _ in 0..k1 {
         t1[*r.pick(&evs)] = vec![Trans(r.below(2) as usize, 1.0)];
     }
+    // repeating roles: a padder that re-arms on its own PaddingSent, a blocker on BlockingEnd, a timer on TimerEnd
+    if r.chance(1, 2) {
+        match role {
+            Role::Padder => t1[Event::PaddingSent] = vec![Trans(1, 1.0)],
+            Role::Blocker => t1[Event::BlockingEnd] = vec![Trans(1, 1.0)],
+            Role::Timer => t1[Event::TimerEnd] = vec![Trans(1, 1.0)],
+            Role::Canceller => {}
+        }
+    }
     let s0 = State::new(t0);
     let mut s1 = State::new(t1);
     s1.action = Some(action);
